@@ -87,3 +87,12 @@ Definition lockstep_ok (n : nat) (chunks : list nat) : bool :=
   | Some s => quiescent no_hoarding s && (length (sink s) =? length chunks)
   | None => false
   end.
+
+(* distance still to travel: a chunk held by the stage that has j stages after it is j+1 moves from the proxy *)
+Fixpoint work (l : list (list nat)) : nat :=
+  match l with [] => 0 | h :: r => length h * S (length r) + work r end.
+
+
+(* a run of internal steps only *)
+Definition all_moves (ls : list plbl) : bool := forallb (fun l => match l with Move _ => true | _ => false end) ls.
+
